@@ -24,7 +24,7 @@ ID = "C04"
 LEVEL = "exploration"
 RULE = ("random histories of 4-10 operations {full, take k+close, take k+keep alive, take k+drop+gc, evaluate while a "
         "user predicate raises at its j-th call, the(...), re-evaluate} over a pool of 2-3 queries sharing 2-3 "
-        "variables (a tenth of the pools also share one attribute expression object used as condition / operand / selected output; a fifth are rule-tree queries) (depth<=3 conditions, random selections), caching on and off, with and without a domain listing an "
+        "variables (a tenth of the pools also share one attribute expression object used as condition / operand / selected output; a fifth are rule-tree queries, with raising evaluations among the operations and, for part of them, conclusions that carry a nested query and read a raising property; a sixth are shapes judged against a fresh twin: next_rule trees, keyword-constrained registry variables, concatenate / flatten over a sub-query, block-style predicate terms, feature-interaction queries of eqlmon/ix.py (part of them with empty inner collections and a for_all over them), one concatenate object shared by two queries, one sub-query given as the domain of two queries' variables with evaluations aborted by a predicate inside it) (depth<=3 conditions, random selections), caching on and off, with and without a domain listing an "
         "object twice; every full evaluation and a final full evaluation of every pool query is compared with the "
         "oracle. Non-trivial: the history contains at least one interrupting operation (partial / raising) before a "
         "full evaluation of a query whose oracle result is neither empty nor the whole product.")
